@@ -25,6 +25,11 @@ package fsmservice
 //@   modifies *
 //@   modifies $fsmLoaded, $loadStamp
 //@   assert@call FromDump[C08.load.round] data == $fsmLoaded[dkgRoundID] && (dkgRoundID in $fsmLoaded) && $loadStamp == $kvWrites
+// every round handed out is a new object restored from (or created for) this very call - never an instance kept from an
+// earlier call: what a failed message did to its instance in memory dies with it, the store alone says where the round
+// stands (C06: after a fault the round is where the store says and accepts what that state accepts; C13; and it proves the
+// `fresh` the node assumes of the FSMService interface)
+//@   ensures[C06.load.fresh,C08.load.fresh,C13.load.fresh] result2 == nil && result1 ==> result0 != nil && fresh(result0)
 
 // Saving a round rewrites the one JSON value with this round's entry replaced and every other entry as loaded.
 //@ func (*FSM).SaveFSM
@@ -46,3 +51,4 @@ package fsmservice
 //@   modifies $fsmLoaded, $loadStamp, $bufc
 //@   assert@call Create[C08.create.onlymissing] !loc(ok) && createIfMissing && dkgRoundID == arg0
 //@   ensures[C08.create.nowrite,C18.node.nocreate] $kvWrites == old($kvWrites)
+//@   ensures[C06.load.fresh,C08.load.fresh,C13.load.fresh] result1 == nil ==> result0 != nil && fresh(result0)
